@@ -19,7 +19,7 @@ prop = [json.loads(l) for l in open("/verif/properties.jsonl") if json.loads(l)[
 meta = {
     "property_id": pid,
     "property_title": prop["title"],
-    "origin": "written by a fresh sub-agent that was given only the text of the property and its own scratch worktree of /repo (nothing from /verif)" if rnd == "1" else "round 2: written by a fresh sub-agent given the text of the property, its own scratch worktree of /repo, and the general remark that the harness under test is a bounded-exhaustive checker (small shapes, short histories, 2-3 goroutines, finite alphabets for 64-bit/float64 values) with the request to need something outside such a scope; nothing from /verif",
+    "origin": "written by a fresh sub-agent that was given only the text of the property and its own scratch worktree of /repo (nothing from /verif)" if rnd == "1" else "round 3 (adversarial): written by a fresh sub-agent given the text of the property, its own scratch worktree of /repo and a general description of what the harness already does (exhaustive small scopes, the list of large configurations, value sweeps, neighbour/alignment/order passes, schedule enumeration with race monitor), asked for something such a harness would still miss; nothing from /verif" if rnd == "3" else "round 2: written by a fresh sub-agent given the text of the property, its own scratch worktree of /repo, and the general remark that the harness under test is a bounded-exhaustive checker (small shapes, short histories, 2-3 goroutines, finite alphabets for 64-bit/float64 values) with the request to need something outside such a scope; nothing from /verif",
     "round": int(rnd),
     "initially_missed_then_check_strengthened": missed,
     "needs_to_manifest": needs,
@@ -31,6 +31,9 @@ meta = {
         "go_test_flags": conf.group(4),
     },
     "checks_run_with_change": checks,
+    "detected_by_own_check": any(c["check"] == pid and c["detected"] for c in checks),
+    "detected_by": [c["check"] for c in checks if c["detected"]],
+    "note": sys.argv[6] if len(sys.argv) > 6 else "",
     "ran": f"tools/seedcheck.sh {src} {pid}  (quick tier, VERIF_REPO=<scratch worktree with the patch applied>)",
 }
 json.dump(meta, open(os.path.join(dst, "meta.json"), "w"), indent=1)
